@@ -217,7 +217,16 @@ class Validator:
         elif isinstance(path[-1], int):
             # the error is on an object in a list
             d = dictutils.findkey(rootdict, *path)
-            key = d["__type__"]
+            if isinstance(d, dict):
+                key = d["__type__"]
+            else:
+                # or on an item of a list-valued keyword e.g. ["size", 0] or
+                # ["points", 0, 1] - report the keyword holding the list
+                keyword_path = list(path)
+                while len(keyword_path) > 1 and isinstance(keyword_path[-1], int):
+                    keyword_path.pop()
+                key = keyword_path[-1]
+                d = dictutils.findkey(rootdict, *keyword_path[:-1])
         else:
             key = path[-1]
             d = dictutils.findkey(rootdict, *path[:-1])
